@@ -732,3 +732,213 @@ class MakePSFromTXTLoop(Contract):
     def loops(self):
         l = LoopSpec(inv=lambda cx: [('shape', cx.len(self.psname + '._data') == cx.old.len(self.psname + '._data'))])
         return {'while#0': l}
+
+
+# =========================================================================== U13 constructors
+class SimpsonWeightsUse(SimpsonWeights):
+    """call-site view: the returned vector is a fresh container"""
+    RV = 'ret:simpsonWeights'
+
+    def result(self, cx):
+        return ObjRef(self.RV, 'std::vector<float>')
+
+    def effect(self, cx):
+        from vf.state import State
+        cx.st.havoc_region(self.RV)
+        cx.st.length[self.RV] = State.fresh('len(' + self.RV + ')', z3.IntSort())
+        cx.st.assume(cx.st.length[self.RV] >= 0)
+
+
+def havoc_event(*regions_scalars):
+    """call-site binding for a member function that is NOT under contract here: it may write the listed members of the
+    receiver (regions keep their length), nothing else"""
+    def ev(ex, n, st, objn, argn, this_override=None):
+        for a in argn:
+            try:
+                ex.ev(a, st)
+            except ExtractionError:
+                pass
+        t = ex.thisname if objn is None else ex.ev_obj(objn, st).name
+        for r in regions_scalars:
+            st.havoc_region(t + r)
+            ex.logw(('r', t + r))
+            ex.frame_range(st, t + r, I(0), st.len_of(t + r))
+        return Opaque('call')
+    return ev
+
+
+class PhaseSpaceCtor(Contract):
+    """the constructor every other PhaseSpace constructor delegates to (C09, C17): containers get the sizes of the class
+    invariant, the nominal shares are copied, given data is copied cell by cell, and projections / bunch populations /
+    integral are the ones the verified methods derive from that data"""
+    replay = lambda self, o, model, pid: ps_replay_spec(model)
+    name = 'vfps::PhaseSpace::PhaseSpace'
+    tu = 'src/PS/PhaseSpace.cpp'
+    nparams = 7
+    params = ['axis', 'oclh', 'beam_charge', 'beam_current', 'filling', 'zoom', 'data']
+    tags = {'C09', 'C17'}
+    ghosts = {'k': 'int', 'n': 'int', 'x': 'int'}
+
+    def requires(self, cx):
+        nx, ny, nb = ps_globals(cx)
+        ax = cx.arg('axis').name
+        d = cx.arg('data')
+        return [('static', PS_static(cx)),
+                ('one_share_per_bunch', cx.len(cx.arg('filling').name) == nb),
+                ('axes', And(Ruler_valid(cx, ax + '[0]', nx), Ruler_valid(cx, ax + '[1]', ny))),
+                ('data_extent', Or(z3.BoolVal(d.region is None), And(d.off >= 0, d.off + nx * ny * nb <= cx.st.len_of(d.region)))) if isinstance(d, PtrV) else ('data_extent', z3.BoolVal(True))]
+
+    def assigns(self, cx):
+        return PS_ASSIGNS(cx)
+
+    @property
+    def calls(self):
+        inst3 = lambda cx: [{'n': cx.ghost_of('n'), 'x': cx.ghost_of('x'), 'k': cx.ghost_of('k')}]
+        return {'simpsonWeights': Use(SimpsonWeightsUse(), inst=lambda cx: [{'g': cx.ghost_of('x')}]),
+                'updateXProjection': Use(UpdateXProjection(), inst=inst3),
+                'updateYProjection': Use(UpdateYProjection(), inst=lambda cx: [{'n': cx.ghost_of('n'), 'y': cx.ghost_of('x'), 'k': cx.ghost_of('k')}]),
+                'integrate': Use(Integrate(), inst=lambda cx: [{'n': cx.ghost_of('n')}]),
+                # Gaussian start distribution: not under contract (frames only)
+                'setProjection': havoc_event('._projection'), 'gaus': lambda ex, n, st, objn, argn, this_override=None: Opaque('gaus'),
+                'createFromProjections': havoc_event('._data')}
+
+    def ensures(self, cx):
+        d = cx.arg('data')
+        has = isinstance(d, PtrV) and d.region is not None
+        return ps_ctor_posts(cx, data_region=d.region if has else None, data_off=d.off if has else None,
+                             shares_region=cx.arg('filling').name, axes_obj=cx.arg('axis').name)
+
+
+def same_ruler(cx, a, b):
+    """ruler a (current state) has the fields and grid lines of ruler b (entry state)"""
+    fa, fb = ruler_fields(cx, a), ruler_fields(cx.old, b)
+    k = cx.g('k')
+    return And(*[fa[f] == fb[f] for f in ('steps', 'mn', 'mx', 'delta', 'zb')], cx.len(a + '._data') == cx.old.len(b + '._data'),
+               cx.sel(a + '._data', k) == cx.old.sel(b + '._data', k))
+
+
+def ps_ctor_posts(cx, data_region=None, data_off=None, shares_region=None, axes_obj=None):
+    """what every PhaseSpace constructor establishes (restated for the delegating ones)"""
+    nx, ny, nb = ps_globals(cx)
+    k, n, x = cx.g('k'), cx.g('n'), cx.g('x')
+    out = [('shape', {'C09', 'C17'}, declare_ps(cx, 'this'))]
+    if axes_obj is not None:
+        out.append(('axes', {'C09', 'C17'}, And(same_ruler(cx, 'this._axis[0]', axes_obj + '[0]'), same_ruler(cx, 'this._axis[1]', axes_obj + '[1]'))))
+    if shares_region is not None:
+        out.append(('shares', {'C09'}, Implies(And(n >= 0, n < nb), cx.sel('this._filling_set', n) == cx.old.sel(shares_region, n))))
+    if data_region is not None:
+        out.append(('data_copied', {'C09'}, Implies(And(k >= 0, k < nx * ny * nb), cx.sel('this._data', k) == z3.Select(cx.old.st.array(data_region, '', parse_type_str('float')), data_off + k))))
+    out += [('xprojection_of_data', {'C09'}, Implies(And(n >= 0, n < nb, x >= 0, x < nx),
+                                                     cx.sel('this._projection', n * nx + x) == SP()(cx.arr('this._data'), (n * nx + x) * ny, cx.arr('this._ws'), I(0), ny))),
+            ('population_of_projection', {'C09'}, Implies(And(n >= 0, n < nb),
+                                                         cx.sel('this._filling', n) == SP()(cx.arr('this._projection'), n * nx, cx.arr('this._ws'), I(0), nx))),
+            ('integral', {'C09'}, cx.rf('this._integral') == SA()(cx.arr('this._filling'), I(0), nb))]
+    return out
+
+
+PS_ASSIGNS = lambda cx: [('s', 'this.*')] + [('r', 'this' + r) for r in DERIVED + ['._filling_set', '._ws']] + [('len', 'this' + r) for r in DERIVED + ['._filling_set', '._ws']]
+INST3 = lambda cx: [{'n': cx.ghost_of('n'), 'x': cx.ghost_of('x'), 'k': cx.ghost_of('k')}]
+
+
+class PhaseSpaceCopyCtor(Contract):
+    """PhaseSpace(const PhaseSpace& other): same axes, shares and data as the original; projections, populations and
+    integral derived from that data by the verified methods — so they equal the original's whenever the original's are
+    up to date (C09: a copy reports the same moments)"""
+    replay = lambda self, o, model, pid: ps_replay_spec(model)
+    name = 'vfps::PhaseSpace::PhaseSpace'
+    tu = 'src/PS/PhaseSpace.cpp'
+    nparams = 1
+    params = ['other']
+    tags = {'C09', 'C17'}
+    ghosts = {'k': 'int', 'n': 'int', 'x': 'int'}
+
+    def setup(self, cx):
+        cx.st.assume(declare_ps(cx, cx.arg('other').name))
+
+    def requires(self, cx):
+        nx, ny, nb = ps_globals(cx)
+        o = cx.arg('other').name
+        return [('static', PS_static(cx)), ('other_valid', And(Ruler_valid(cx, o + '._axis[0]', nx), Ruler_valid(cx, o + '._axis[1]', ny)))]
+
+    assigns = lambda self, cx: PS_ASSIGNS(cx)
+
+    @property
+    def calls(self):
+        return {'ctor:vfps::PhaseSpace': Use(PhaseSpaceCtor(), inst=INST3)}
+
+    def ensures(self, cx):
+        o = cx.arg('other').name
+        return ps_ctor_posts(cx, data_region=o + '._data', data_off=I(0), shares_region=o + '._filling_set', axes_obj=o + '._axis')
+
+
+class PhaseSpaceCtor8(Contract):
+    """PhaseSpace(axis0, axis1, oclh, charge, current, filling, zoom, data) -> the main constructor with {{axis0,axis1}}"""
+    replay = lambda self, o, model, pid: ps_replay_spec(model)
+    name = 'vfps::PhaseSpace::PhaseSpace'
+    tu = 'src/PS/PhaseSpace.cpp'
+    nparams = 8
+    params = ['axis0', 'axis1', 'oclh', 'beam_charge', 'beam_current', 'filling', 'zoom', 'data']
+    tags = {'C09', 'C17'}
+    ghosts = {'k': 'int', 'n': 'int', 'x': 'int'}
+
+    def requires(self, cx):
+        nx, ny, nb = ps_globals(cx)
+        d = cx.arg('data')
+        return [('static', PS_static(cx)),
+                ('one_share_per_bunch', cx.len(cx.arg('filling').name) == nb),
+                ('axes', And(Ruler_valid(cx, cx.arg('axis0').name, nx), Ruler_valid(cx, cx.arg('axis1').name, ny))),
+                ('data_extent', Or(z3.BoolVal(d.region is None), And(d.off >= 0, d.off + nx * ny * nb <= cx.st.len_of(d.region))) if isinstance(d, PtrV) and d.region is not None else z3.BoolVal(True))]
+
+    assigns = lambda self, cx: PS_ASSIGNS(cx)
+
+    @property
+    def calls(self):
+        return {'ctor:vfps::PhaseSpace': Use(PhaseSpaceCtor(), inst=INST3)}
+
+    def ensures(self, cx):
+        d = cx.arg('data')
+        has = isinstance(d, PtrV) and d.region is not None
+        out = ps_ctor_posts(cx, data_region=d.region if has else None, data_off=d.off if has else None, shares_region=cx.arg('filling').name)
+        out.append(('axes', {'C09', 'C17'}, And(same_ruler(cx, 'this._axis[0]', cx.arg('axis0').name), same_ruler(cx, 'this._axis[1]', cx.arg('axis1').name))))
+        return out
+
+
+class PhaseSpaceCtor12(Contract):
+    """PhaseSpace(qmin,qmax,qscale,pmin,pmax,pscale, ...): builds the two rulers with nx / ny grid lines over [qmin,qmax] and
+    [pmin,pmax] (Ruler constructor contract) and delegates"""
+    replay = lambda self, o, model, pid: ps_replay_spec(model)
+    name = 'vfps::PhaseSpace::PhaseSpace'
+    tu = 'src/PS/PhaseSpace.cpp'
+    nparams = 12
+    params = ['qmin', 'qmax', 'qscale', 'pmin', 'pmax', 'pscale', 'oclh', 'beam_charge', 'beam_current', 'filling', 'zoom', 'data']
+    tags = {'C09', 'C17', 'C03'}
+    ghosts = {'k': 'int', 'n': 'int', 'x': 'int'}
+
+    def requires(self, cx):
+        nx, ny, nb = ps_globals(cx)
+        d = cx.arg('data')
+        return [('static', PS_static(cx)),
+                ('one_share_per_bunch', cx.len(cx.arg('filling').name) == nb),
+                ('data_extent', Or(z3.BoolVal(d.region is None), And(d.off >= 0, d.off + nx * ny * nb <= cx.st.len_of(d.region))) if isinstance(d, PtrV) and d.region is not None else z3.BoolVal(True))]
+
+    assigns = lambda self, cx: PS_ASSIGNS(cx)
+
+    @property
+    def calls(self):
+        return {'ctor:vfps::PhaseSpace': Use(PhaseSpaceCtor8(), inst=INST3),
+                'ctor:vfps::Ruler<float>': Use(RulerCtor(), inst=lambda cx: [{'g': cx.ghost_of('k')}])}
+
+    def ensures(self, cx):
+        nx, ny, nb = ps_globals(cx)
+        d = cx.arg('data')
+        has = isinstance(d, PtrV) and d.region is not None
+        out = ps_ctor_posts(cx, data_region=d.region if has else None, data_off=d.off if has else None, shares_region=cx.arg('filling').name)
+        r0, r1 = ruler_fields(cx, 'this._axis[0]'), ruler_fields(cx, 'this._axis[1]')
+        k = cx.g('k')
+        out.append(('axes_from_extents', {'C09', 'C03', 'C17'},
+                    And(r0['steps'] == nx, r0['mn'] == cx.a('qmin'), r0['mx'] == cx.a('qmax'), r0['delta'] * z3.ToReal(nx - 1) == cx.a('qmax') - cx.a('qmin'),
+                        r1['steps'] == ny, r1['mn'] == cx.a('pmin'), r1['mx'] == cx.a('pmax'), r1['delta'] * z3.ToReal(ny - 1) == cx.a('pmax') - cx.a('pmin'),
+                        cx.len('this._axis[0]._data') == nx, cx.len('this._axis[1]._data') == ny,
+                        Implies(And(k >= 0, k < nx), cx.sel('this._axis[0]._data', k) == cx.a('qmin') + z3.ToReal(k) * r0['delta']),
+                        Implies(And(k >= 0, k < ny), cx.sel('this._axis[1]._data', k) == cx.a('pmin') + z3.ToReal(k) * r1['delta']))))
+        return out
